@@ -46,6 +46,12 @@ claimed = {
  "C06": ("SSA data-flow over the parser: enumeration of every typed slot store (composite literals, constructor calls), backward origin resolution, forward type-derivation that stops at node construction, guard atoms (predicate kind + polarity, wrapper helpers) and cut-based reachability from the value's definition with consistent branch valuation; loop/list, post-construction (delegated type), producer-function and driver second-line guards; partial evaluation of the parser's operator tables against both converters' accept/reject cells",
          "Decides for every typed position that the required predicate is established on all paths to the node construction; decides table agreement and target independence. Acceptance of all well-typed programs is not decided.",
          "Trusts the slot requirement table (oracle: Go typing + README signatures) written in the checker; go/ssa.", "§3 C06"),
+ "C07": ("SSA rules over the parser's context handling: origin of every mutated context value (clone / fresh / received), order and predicate of the non-global filter in the function-definition parser, cut-based reachability of node uses from context lookups without the found-edge, newness and intra-list duplicate tests at declaration sites, scope-stack query constants and error guards for break/continue/return/func, scope constants per block-entering construct, Public() guards of import stores",
+         "Structural necessary conditions of lexical scoping per site. Completeness (every in-scope use accepted) is not decided.",
+         "Roles (context type, mutators, lookups, clone, scope queries) are recognised by shape; go/ssa.", "§3 C07"),
+ "C09": ("SSA rules: single construction site of call nodes dominated by the call-edge record, current-function key set/reset around bodies, predicate of the unused-function filter, redundancy rule for membership tests of an element in the list it is ranged from (Engler-style contradiction), first-character class of the computed namespace prefix, Public() guards",
+         "Structural necessary conditions of linking and dead-function removal. Run-time behaviour of diamonds/repeated aliases is not decided.",
+         "go/ssa; shapes of the call-graph map and the filter closure.", "§3 C09"),
 }
 na_reason = {
  "C15": "value-level agreement of a TypeShell library executed by a shell with Go's strings package over all arguments; no clause of it is visible in the shape of the Go sources or of std/strings.tsh; static analysis (this task's technique family) cannot address it",
